@@ -255,7 +255,7 @@ func Tar(c *Ctx) error {
 		}
 		return nil
 	}
-	n := 200
+	n := 600
 	if c.Thorough() {
 		n = 4000
 	}
